@@ -764,6 +764,12 @@ func ruleRetryLoop(c *core.Ctx, rule, fname, method string) {
 	}
 	c.Check(ok, rule, "type/basic."+fname+"/eof-with-data", fn.Pos(), "an error is returned only if the read is short or the stream error is not io.EOF",
 		fname+" reports an error although all bytes were transferred, when the last fragment comes together with io.EOF: a complete message at end of stream is rejected")
+	// the stream is asked again only after a call that reported no error: an error that
+	// comes with data and is not repeated (io.Reader promises no repetition) is otherwise
+	// lost, and the caller blocks on a dead connection instead of shutting it down
+	again := core.ReachFrom(core.After(read), nil, core.CutEstablishing(core.Eq(isErr, core.IsNilConst)))
+	c.Check(!again.Has(read), rule, "type/basic."+fname+"/retry-only-without-error", read.Pos(), "the next "+method+" is reached only across err == nil",
+		fname+" calls "+method+" again after a call that returned an error (when it also transferred bytes): a failure reported once, together with data, is swallowed and the end point never learns that its connection broke")
 }
 
 // lastFieldStore returns the store into the same field (same root, same path)
